@@ -420,6 +420,7 @@ class World:
                 w.fns[f["id"]] = f
         w.inlined = {}
         w.renamed = {}
+        w.new_fns = set(i for i in w.bodies if known is not None and i not in known)
         if known is not None:
             _alias_renamed_fields(w)
             _alias_renamed(w, known)
@@ -464,6 +465,14 @@ class World:
                         r = st.get("r") or {}
                         if r.get("k") == "agg" and r.get("def") and r["def"] in self.bodies and r["def"] not in seen:
                             work.append(r["def"])
+                    # a freshly extracted helper handed over as a function value (`is_some_and(has_work_to_send)`) is never called by
+                    # name, so it cannot be inlined (2.2a): it belongs to the family of the body that passes it on
+                    t = bl["term"]
+                    if t["k"] == "call":
+                        for a in t["args"]:
+                            fi = a.get("fn") if isinstance(a, dict) else None
+                            if fi and fi in getattr(self, "new_fns", ()) and fi in self.bodies and fi not in seen:
+                                work.append(fi)
             work.extend(self.children(i))
         return out
 
